@@ -22,9 +22,9 @@ type core struct {
 	enable      *ssa.Function // Dials.EnableVerification
 	register    *ssa.Function // Dials.RegisterCallback
 
-	fValue, fUpdates, fCbch, fMonCtl, fParams *types.Var // Dials fields
-	verified                                    *types.Named // VerifiedConfig
-	verifyM                                     *types.Func
+	fValue, fUpdates, fCbch, fMonCtl, fParams *types.Var   // Dials fields
+	verified                                  *types.Named // VerifiedConfig
+	verifyM                                   *types.Func
 
 	// discovered
 	storeCalls []ssa.CallInstruction // Store/Swap/CAS on Dials.value
